@@ -97,6 +97,45 @@ def angles_in_compounds(ctx, env):
             ctx.violation("C05:round-trip", f"{mag} {src} -> {dst} -> back = {back.magnitude!r}", case)
 
 
+def own_unit_questions(ctx, env):
+    """A quantity converts to its own unit, is added to and subtracted from itself - whatever its unit looks like: a prefixed
+    product of two of the program's units of one dimension that nothing connects (built after the unprefixed product was
+    interned in the other order), a prefixed unit on which an equivalence into another dimension is declared (a lap is 90
+    seconds).  Nothing has to be converted for these; they cannot legitimately fail"""
+    m, rng = env.m, ctx.rng
+    Q, P = m.Quantity, env.pools.prefixes
+    for k in range(8 if ctx.tier == "quick" else 400):
+        tag = f"zqc05own{ctx.shard}x{k}"
+        dim = rng.choice([m.Length, m.Mass, m.Time])
+        foo, bar = m.Unit.define(dim, tag + "foo", tag + "foo"), m.Unit.define(dim, tag + "bar", tag + "bar")
+        p = P[rng.choice(["kilo", "milli", "mega", "kibi"])]
+        if rng.random() < 0.6:
+            bar * foo                                   # the unprefixed product exists first, factors in the other order
+        shapes = [("prefixed product of two unconnected units", (p * foo) * bar), ("its square", ((p * foo) * bar) ** 2), ("a quotient", (p * foo) / bar)]
+        if rng.random() < 0.5:
+            other = {m.Length: "second", m.Mass: "joule", m.Time: "meter"}[dim]
+            if other in m.Unit._by_name:
+                foo.equals(90 * m.Unit._by_name[other])          # an equivalence into another dimension, legal
+                shapes += [("a prefixed unit with an equivalence into another dimension", p * foo), ("the unit itself", foo)]
+        for label, u in shapes:
+            x = rng.choice([2, 3.5, Decimal("1.25")])
+            q = Q(x, u)
+            ctx.count("evaluations")
+            ctx.count("own_unit_questions")
+            ctx.distinct(("own-unit", label), True)
+            case = {"unit": str(u), "shape": label}
+            for what, ask, want in (("in_unit(its own unit)", lambda: q.in_unit(u).magnitude, x), ("q + q", lambda: (q + q).magnitude, x + x), ("q - q", lambda: (q - q).magnitude, x - x),
+                                    ("q == q", lambda: q == Q(x, u), True), ("q < 2q", lambda: q < Q(x + x, u), True)):
+                try:
+                    got = ask()
+                except Exception as e:
+                    ctx.violation("C05:self-conversion-changes-magnitude", f"{what} for {x} {u} ({label}) raised {type(e).__name__}: {e}", case)
+                    continue
+                close_enough = got is want if isinstance(want, bool) else abs(oracle.F(got) - oracle.F(want)) <= R12 * max(abs(oracle.F(x)), 1)
+                if not close_enough:
+                    ctx.violation("C05:self-conversion-changes-magnitude", f"{what} for {x} {u} ({label}) gives {got!r}, not {want!r}", case)
+
+
 def run(ctx):
     # odd shards import the unit modules in a shuffled order: the order of neighbours in the ratio
     # table follows declaration order and steers the depth-first path search (route choice)
@@ -223,6 +262,7 @@ def run(ctx):
                     ctx.violation("C05:route-dependent", f"{mag!r} {a} -> {c} -> {b} = {acb.magnitude!r} but direct = {ab.magnitude!r} (rel diff {core.sf(d):.3g})", case)
                 if i % 400 == 5:
                     ctx.sample({"a": str(a), "c": str(c), "b": str(b), "mag": repr(mag), "direct": repr(ab.magnitude), "via_c": repr(acb.magnitude)})
+    own_unit_questions(ctx, env)      # last in this process: it declares equivalences across dimensions, which steer later searches
     synthetic(ctx)
     ctx.require("relations/round_trip", 50)
     ctx.require("relations/linearity", 50)
